@@ -179,8 +179,22 @@ fn gen_ser_msg(rng: &mut Rng, parsed_ok: bool) -> Item {
             }
             m
         }
-        4..=6 => gen::handshake(rng, "server_hello", 200),
-        7 => gen::handshake(rng, "server_hello_d18", 200),
+        4..=7 => {
+            let kind = if rng.chance(1, 4) { "server_hello_d18" } else { "server_hello" };
+            let mut m = gen::handshake(rng, kind, 200);
+            // extension blocks at and beyond the sizes a small fixed buffer would hold
+            if rng.chance(1, 6) && !(kind == "server_hello" && m.u("ver") == 0x0300) {
+                let n = *rng.pick(&[255usize, 256, 257, 400, 470, 512, 1024, 4096, 16384, 65535]);
+                let e = if rng.chance(1, 2) { rng.bytes(n) } else { let mut e = gen::extension_block(rng, n); e.truncate(n); e };
+                m.set("ext", Val::Bytes(e));
+            }
+            if kind == "server_hello" && rng.chance(1, 12) {
+                // session ids of every valid length (1..32; an empty one is the absent one)
+                let n = *rng.pick(&[1usize, 2, 16, 31, 32]);
+                m.set("sid", Val::Bytes(rng.bytes(n)));
+            }
+            m
+        }
         8 => {
             let mut m = gen::handshake(rng, "client_key_exchange", 300);
             if rng.chance(1, 4) {
@@ -245,7 +259,11 @@ fn gen_ext(rng: &mut Rng) -> Item {
             let n = if rng.chance(1, 4) { *rng.pick(&[0usize, 1, 127, 128, 255, 256]) } else { rng.small_len(20) };
             Item::new("xgroups").bytes("groups", &rng.bytes(n * 2))
         }
-        _ => Item::new("xother").int("which", rng.below(8)),
+        _ => {
+            // every other variant of TlsExtension (none of them is supported today)
+            let n = if rng.chance(1, 5) { *rng.pick(&[0usize, 1, 2, 255, 256]) } else { rng.urange(1, 24) };
+            Item::new("xother").int("which", rng.below(30)).bytes("data", &rng.bytes(n)).int("v", rng.u32() as u64)
+        }
     }
 }
 
@@ -329,6 +347,11 @@ pub fn generate(rng: &mut Rng, _prop: Prop) -> Scenario {
             }
             _ => {
                 let n = if rng.chance(1, 10) { rng.urange(4, 30) } else { rng.urange(1, 3) };
+                if rng.chance(1, 25) {
+                    let (mode, k) = sink_plan(rng, 2);
+                    s.push(Item::new("op").str("what", "exts").bytes("es", &[]).int("sink", mode).int("k", k).int("empty", 1));
+                    continue;
+                }
                 let mut ids = Vec::new();
                 for _ in 0..n {
                     s.push(gen_ext(rng).int("_id", id));
@@ -358,16 +381,41 @@ fn build_ext<'a>(e: &'a Item) -> Option<TlsExtension<'a>> {
         "xsni" => TlsExtension::SNI(e.l("names").iter().enumerate().map(|(i, n)| (SNIType(e.b("types").get(i).copied().unwrap_or(0)), &n[..])).collect()),
         "xmaxfrag" => TlsExtension::MaxFragmentLength(e.u("v") as u8),
         "xgroups" => TlsExtension::EllipticCurves(e.b("groups").chunks(2).filter(|c| c.len() == 2).map(|c| NamedGroup(u16::from_be_bytes([c[0], c[1]]))).collect()),
-        "xother" => match e.u("which") {
-            0 => TlsExtension::StatusRequest(None),
-            1 => TlsExtension::Heartbeat(1),
-            2 => TlsExtension::EncryptThenMac,
-            3 => TlsExtension::ExtendedMasterSecret,
-            4 => TlsExtension::SignatureAlgorithms(vec![0x0403, 0x0804]),
-            5 => TlsExtension::RecordSizeLimit(16385),
-            6 => TlsExtension::PskExchangeModes(vec![1]),
-            _ => TlsExtension::Unknown(TlsExtensionType(0x1234), &[]),
-        },
+        "xother" => {
+            let d = e.b("data");
+            let v = e.u("v");
+            let pairs = || d.chunks(2).filter(|c| c.len() == 2).map(|c| u16::from_be_bytes([c[0], c[1]])).collect::<Vec<u16>>();
+            match e.u("which") {
+                0 => TlsExtension::StatusRequest(None),
+                1 => TlsExtension::Heartbeat(v as u8),
+                2 => TlsExtension::EncryptThenMac,
+                3 => TlsExtension::ExtendedMasterSecret,
+                4 => TlsExtension::SignatureAlgorithms(pairs()),
+                5 => TlsExtension::RecordSizeLimit(v as u16),
+                6 => TlsExtension::PskExchangeModes(d.to_vec()),
+                7 => TlsExtension::Unknown(TlsExtensionType(0x1234), d),
+                8 => TlsExtension::EcPointFormats(d),
+                9 => TlsExtension::SessionTicket(d),
+                10 => TlsExtension::KeyShare(d),
+                11 => TlsExtension::KeyShareOld(d),
+                12 => TlsExtension::PreSharedKey(d),
+                13 => TlsExtension::EarlyData(if v & 1 == 0 { None } else { Some(v as u32) }),
+                14 => TlsExtension::SupportedVersions(pairs().into_iter().map(TlsVersion).collect()),
+                15 => TlsExtension::Cookie(d),
+                16 => TlsExtension::ALPN(d.chunks(5).collect()),
+                17 => TlsExtension::SignedCertificateTimestamp(if d.is_empty() { None } else { Some(d) }),
+                18 => TlsExtension::Padding(d),
+                19 => TlsExtension::PostHandshakeAuth,
+                20 => TlsExtension::NextProtocolNegotiation,
+                21 => TlsExtension::RenegotiationInfo(d),
+                22 => TlsExtension::Grease(0x0a0a | ((v as u16 & 0xf) << 12) | ((v as u16 & 0xf) << 4), d),
+                23 => TlsExtension::StatusRequest(Some((CertificateStatusType(1), d))),
+                24 => TlsExtension::EncryptedServerName { ciphersuite: TlsCipherSuiteID(v as u16), group: NamedGroup((v >> 16) as u16), key_share: d, record_digest: &d[..d.len() / 2], encrypted_sni: d },
+                25 => TlsExtension::Unknown(TlsExtensionType(v as u16 | 0x4000), d),
+                26 => TlsExtension::OidFilters(Vec::new()),
+                _ => TlsExtension::Unknown(TlsExtensionType(0x1234), &[]),
+            }
+        }
         _ => return None,
     })
 }
@@ -836,7 +884,8 @@ fn op_rec(ctx: &mut Ctx, scn: &Scenario, op: &Item, mode: u64, k: usize) {
 
 fn op_ext(ctx: &mut Ctx, scn: &Scenario, op: &Item, mode: u64, k: usize) {
     let items: Vec<&Item> = op.b("es").iter().filter_map(|id| find(scn, *id as u64)).collect();
-    if items.is_empty() {
+    // (an empty list is a value of its own for gen_tls_extensions: an empty block)
+    if items.is_empty() && !(op.s("what") == "exts" && op.u("empty") == 1) {
         return;
     }
     let exts: Vec<TlsExtension> = items.iter().filter_map(|e| build_ext(e)).collect();
